@@ -231,7 +231,17 @@ func stringSliceVals() []Val {
 		vf("strs:1", func() any { return []string{"minecraft:overworld"} }),
 		vf("strs:2", func() any { return []string{"a", "ä€😀"} }),
 		vf("strs:empty-elem+long", func() any { return []string{"", rep("x", 16384)} }),
+		vf("strs:count127", func() any { return manyStrings(127) }),
+		vf("strs:count128", func() any { return manyStrings(128) }),
 	}
+}
+
+func manyStrings(n int) []string {
+	out := make([]string, n)
+	for i := range out {
+		out[i] = fmt.Sprintf("ns:value_%d", i)
+	}
+	return out
 }
 
 func uuidSliceVals() []Val {
@@ -239,7 +249,17 @@ func uuidSliceVals() []Val {
 		vf("uuids:empty", func() any { return []uuid.UUID(nil) }),
 		vf("uuids:1", func() any { return []uuid.UUID{uuidA} }),
 		vf("uuids:2", func() any { return []uuid.UUID{uuidB, uuid.Nil} }),
+		vf("uuids:count127", func() any { return manyUUIDs(127) }),
+		vf("uuids:count128", func() any { return manyUUIDs(128) }),
 	}
+}
+
+func manyUUIDs(n int) []uuid.UUID {
+	out := make([]uuid.UUID, n)
+	for i := range out {
+		out[i][0], out[i][7], out[i][8], out[i][15] = byte(i), byte(i*3), 0x80|byte(i), byte(255-i)
+	}
+	return out
 }
 
 // ---- keys ----
@@ -258,7 +278,17 @@ func keySliceVals() []Val {
 		vf("keys:empty", func() any { return []key.Key(nil) }),
 		vf("keys:1", func() any { return []key.Key{key.New("minecraft", "vanilla")} }),
 		vf("keys:2", func() any { return []key.Key{key.New("minecraft", "bundle"), key.New("x", "y/z")} }),
+		vf("keys:count127", func() any { return manyKeys(127) }),
+		vf("keys:count128", func() any { return manyKeys(128) }),
 	}
+}
+
+func manyKeys(n int) []key.Key {
+	out := make([]key.Key, n)
+	for i := range out {
+		out[i] = key.New("ns", fmt.Sprintf("feature_%d", i))
+	}
+	return out
 }
 
 // ---- identified keys (deterministic: a fixed modulus, not a generated key pair) ----
@@ -514,6 +544,14 @@ func mapStringStringVals() []Val {
 		vf("map:1", func() any { return map[string]string{"k": "v"} }),
 		vf("map:2", func() any { return map[string]string{"a": "1", "ä€": rep("z", 200)} }),
 		vf("map:empty-key", func() any { return map[string]string{"": ""} }),
+		// crash-report details: the documented maximum is 32 entries
+		vf("map:count32", func() any {
+			m := map[string]string{}
+			for i := 0; i < 32; i++ {
+				m[fmt.Sprintf("detail_%d", i)] = fmt.Sprintf("value %d", i)
+			}
+			return m
+		}),
 	}
 }
 
@@ -530,6 +568,28 @@ func tagsVals() []Val {
 			}
 		}),
 		vf("tags:empty-inner", func() any { return map[string]map[string][]int{"x": {}} }),
+		// counts on both sides of the one-byte VarInt: 128 tags in a registry, 128 ids in a tag, 128 registries
+		vf("tags:count128-tags", func() any {
+			in := map[string][]int{}
+			for i := 0; i < 128; i++ {
+				in[fmt.Sprintf("ns:tag_%d", i)] = []int{i}
+			}
+			return map[string]map[string][]int{"minecraft:block": in}
+		}),
+		vf("tags:count128-ids", func() any {
+			ids := make([]int, 128)
+			for i := range ids {
+				ids[i] = i * 3
+			}
+			return map[string]map[string][]int{"minecraft:item": {"ns:big": ids, "ns:127": ids[:127]}}
+		}),
+		vf("tags:count128-registries", func() any {
+			m := map[string]map[string][]int{}
+			for i := 0; i < 128; i++ {
+				m[fmt.Sprintf("ns:registry_%d", i)] = map[string][]int{"t": {i}}
+			}
+			return m
+		}),
 	}
 }
 
